@@ -207,9 +207,15 @@ class Verifier(Engine):
         return self._flush(st) + [("normal", st, None)]
 
     def _eval_rhs(self, value, target, st):
-        # `[]` / `{}` / `set()` initialisers take their type from the contract's locals table
+        # `[]` / `{}` / `set()` initialisers take their type from the contract's locals / fields table
+        ty = None
         if isinstance(target, ast.Name) and target.id in self.c.locals:
             ty = self.c.locals[target.id]
+        elif isinstance(target, ast.Attribute) and isinstance(target.value, ast.Name):
+            base = st.env.get(target.value.id)
+            if isinstance(base, ObjV):
+                ty = self.field_types.get(base.path + (target.attr,))
+        if ty is not None:
             d = self.decls
             if isinstance(value, ast.List) and not value.elts and isinstance(ty, TSeq):
                 return V(ty, smt.EmptySeq(sort_of(ty, d)))
